@@ -10,6 +10,7 @@ struct Failing(&'static str);
 impl serde::Serialize for Failing {
 	fn serialize<S: serde::Serializer>(&self, s: S) -> Result<S::Ok, S::Error> {
 		match self.0 {
+			"never" => s.serialize_str("fine"),
 			"f0" => Err(S::Error::custom("fails before writing")),
 			"fmid" => {
 				let mut seq = s.serialize_seq(None)?;
@@ -33,6 +34,10 @@ fn fclass(s: &str) -> &'static str {
 		"fmid" => "fmid",
 		_ => "fend",
 	}
+}
+
+fn strs_of(v: &Value) -> Vec<&str> {
+	v.as_array().map(|a| a.iter().filter_map(|x| x.as_str()).collect()).unwrap_or_default()
 }
 
 enum B {
@@ -139,6 +144,30 @@ fn ctor_case(i: usize, k: usize, c: &Value, rng: &mut rand::rngs::StdRng, out: &
 	macro_rules! tup {
 		($($i:expr),+) => { ($(vals[$i].clone(),)+).to_rpc_params() };
 	}
+	// what this thread did just before: possibly a one-shot conversion that failed part-way (it must report an error, not
+	// panic - and must not leave anything behind that the measured conversion could pick up)
+	let after: Vec<&str> = strs_of(&op["after"]);
+	if after.len() == 2 {
+		let f = fclass(after[1]);
+		let first = gen_value("scalar", rng);
+		let prior: Result<Result<Option<Box<serde_json::value::RawValue>>, serde_json::Error>, String> = catch(|| match after[0] {
+			"tuple" => (first.clone(), Failing(f), 3u8).to_rpc_params(),
+			"vec" => vec![Failing("never"), Failing(f)].to_rpc_params(),
+			"slice" => (&[Failing("never"), Failing("never"), Failing(f)][..]).to_rpc_params(),
+			_ => [Failing(f)].to_rpc_params(),
+		});
+		match prior {
+			Ok(Err(_)) => {}
+			Err(p) => {
+				out.verdict(i, k, Some(format!("ctor:{}:failing-conversion-panicked", after[0])), json!({"case": c, "msg": p}));
+				return;
+			}
+			Ok(Ok(o)) => {
+				out.verdict(i, k, Some(format!("ctor:{}:failing-conversion-reported-success", after[0])), json!({"case": c, "text": o.map(|r| r.get().to_string())}));
+				return;
+			}
+		}
+	}
 	let res: Result<Result<Option<Box<serde_json::value::RawValue>>, serde_json::Error>, String> = catch(|| match ctor {
 		"tuple" => match n {
 			1 => tup!(0),
@@ -199,7 +228,8 @@ fn ctor_case(i: usize, k: usize, c: &Value, rng: &mut rand::rngs::StdRng, out: &
 			}
 		},
 	};
-	out.verdict(i, k, bad.map(|b| format!("ctor:{ctor}:{b}")), json!({"case": c, "observed": obs, "want": want}));
+	let ctx = if after.len() == 2 { ":after-failed-conversion" } else { "" };
+	out.verdict(i, k, bad.map(|b| format!("ctor:{ctor}:{b}{ctx}")), json!({"case": c, "observed": obs, "want": want}));
 }
 
 fn batch_case(i: usize, k: usize, c: &Value, n: usize, vals: &[Value], out: &mut Out) {
